@@ -160,7 +160,7 @@ extern struct vk_shared *S;
 extern struct vk_cfg vk_cfg;
 extern char **vk_environ;
 extern int vk_side;        /* 0 parent, 1 library code after fork, 2 forked side back in the harness */
-extern int vk_api_seq;     /* API call in progress, 0 outside */
+extern __thread int vk_api_seq; /* API call in progress (per thread), 0 outside */
 extern int vk_faults_armed;
 extern int vk_nchildren;
 extern struct vk_child vk_children[VK_MAX_CHILDREN];
@@ -190,7 +190,7 @@ int vk_api_begin(const char *fmt, ...) __attribute__((format(printf, 1, 2)));
 void vk_api_end(long r);
 void vk_forked_side_becomes_helper(void) __attribute__((noreturn));
 int vk_sched_point(const char *label);
-extern int vk_calls_in_api; /* intercepted calls since the API call began (livelock guard) */ /* explicit scheduling point between API calls */
+extern __thread int vk_calls_in_api; /* intercepted calls since the API call began (livelock guard) */ /* explicit scheduling point between API calls */
 
 /* ledgers */
 int vk_fd_ledger_open_count(void);  /* descriptors the library owns right now */
@@ -209,6 +209,13 @@ int vk_fd_snapshot_equal(const struct vk_fdsnap *a, const struct vk_fdsnap *b, c
 /* event queries */
 int vk_count_calls(int api, int call);       /* parent-side events of `call` during API call `api` (call 0 = any visible: poll/waitpid/kill/read/write) */
 struct vk_event *vk_last_event(int api, int call);
+
+/* --- cooperative threads (C20): one thread runs at a time; every intercepted call is a scheduling point --- */
+#define VK_MAX_THREADS 4
+extern int vk_threads_on;
+int vk_thread_create(void *(*fn)(void *), void *arg); /* returns the thread index (0 is the creating thread) */
+void vk_thread_join(int idx);
+int vk_thread_self(void);
 
 /* move a harness-owned descriptor out of the library's number space */
 int vk_high_fd(int fd);
